@@ -39,12 +39,22 @@ type Log struct {
 type IndexEntry struct {
 	Key string
 	Pos uint64
+	// where the position varint sits in the file (for structure-aware mutation)
+	PosOff, PosLen int
 }
 
 type ObjEntry struct {
 	Prefix    []byte
 	Positions []uint64
+	// file offset and length of the first position varint (0 when there is none)
+	PosOff, PosLen int
 }
+
+// Index returns the index entries of an index block.
+func (b *Block) Index() []IndexEntry { return b.index }
+
+// Objs returns the object entries of an object block.
+func (b *Block) Objs() []ObjEntry { return b.objs }
 
 type Block struct {
 	Off      uint64 // file offset where the block starts (0 for the first block)
@@ -410,8 +420,8 @@ func (f *File) parseValue(b *Block, recs []byte, p int, key string, extra int) (
 		if k < 0 {
 			return fail("bad block position")
 		}
+		b.index = append(b.index, IndexEntry{Key: key, Pos: pos, PosOff: int(b.Off) + p, PosLen: k})
 		p += k
-		b.index = append(b.index, IndexEntry{Key: key, Pos: pos})
 	case 'o':
 		cnt := uint64(extra)
 		if extra == 0 {
@@ -432,6 +442,7 @@ func (f *File) parseValue(b *Block, recs []byte, p int, key string, extra int) (
 			p += k
 			if i == 0 {
 				lastPos = d
+				e.PosOff, e.PosLen = int(b.Off)+p-k, k
 			} else {
 				if d == 0 {
 					f.errf("object entry %x: repeated position", e.Prefix)
